@@ -64,6 +64,14 @@ def main():
     add('ChanSelectSendClosed', [('k', 'int')], 'int', 'ch := make(chan int, 1); close(ch); trace(3); v := 0; select { case ch <- k: v = 1; default: v = 2 }', 'chan')
     add('ChanSelectDefault', [('k', 'int')], 'int', 'ch := make(chan int, 1); ch <- k; v := 0; select { case ch <- k: v = 1; default: v = 2 }; select { case x := <-ch: v += x; default: v += 1000 }', 'chan')
     add('ChanTwice', [('k', 'int')], 'int', 'ch := make(chan int, 1); close(ch); v := 0; for i := 0; i < 2; i++ { func() { defer func() { if recover() != nil { v += 10 } }(); trace(4); ch <- k; trace(5) }() }', 'chan')
+    # nil map write / read, failed and successful type assertions
+    add('NilMapWrite', [('k', 'int')], 'int', 'var m map[int]int; trace(3); m[k] = 1; v := len(m)', 'nilmap')
+    add('NilMapRead', [('k', 'int')], 'int', 'var m map[int]int; x, ok := m[k]; v := x + len(m); if ok { v += 100 }', 'nilmap')
+    add('AssertFail', [('k', 'int')], 'int', 'var e interface{} = int32(k); trace(3); v := e.(int)', 'assert')
+    add('AssertOk', [('k', 'int')], 'int', 'var e interface{} = k; v := e.(int)', 'assert')
+    add('AssertNilIface', [('k', 'int')], 'int', 'var e interface{}; trace(3); v := e.(int) + k', 'assert')
+    add('AssertIfaceFail', [('k', 'int')], 'int', 'var e interface{} = k; trace(3); s := e.(interface{ M() int }); v := s.M()', 'assert')
+    add('AssertCommaOk', [('k', 'int')], 'int', 'var e interface{} = int8(k); x, ok := e.(int); v := x; if ok { v += 100 }', 'assert')
     os.makedirs(out, exist_ok=True)
     open(os.path.join(out, 'go.mod'), 'w').write('module tvc03\n\ngo 1.24\n')
     src = ['package tvc03', '', 'import _ "unsafe"', '', '//go:linkname trace C.trace', 'func trace(x int)', '']
